@@ -75,6 +75,7 @@ type c16Ev struct {
 }
 
 type c16Case struct {
+	SafeTag     bool // the syncer is configured to follow the safe block
 	ForkMidPoll bool // the L2 fork happens between the node's range query and its header cross-check
 	Long        int  // length of an inserted stretch of event-less blocks (0: none)
 	Blocks      []c16Ev
@@ -172,6 +173,7 @@ func c16Gen(rt *rapid.T) c16Case {
 		c.RestartAt = rapid.IntRange(2, 40).Draw(rt, "restartAt")
 	}
 	c.Instant = rapid.IntRange(0, 3).Draw(rt, "instantFinality") == 0
+	c.SafeTag = rapid.IntRange(0, 3).Draw(rt, "followSafeBlock") == 0
 	if !c.Instant && len(c.Gaps) >= 2 && rapid.IntRange(0, 2).Draw(rt, "l2Reorg") == 0 {
 		step := rapid.IntRange(1, len(c.Gaps)-1).Draw(rt, "forkStep")
 		lat := 0
@@ -332,6 +334,12 @@ func c16Run(c c16Case) (verdict string, inconcl string) {
 		chain.Extend(c.logs(i))
 	}
 	n := uint64(len(c.Blocks))
+	// the syncer follows the latest block or (SafeTag) the safe block - the scripted chain moves both together - while the
+	// reorg detector keeps tracking down to the finalized one
+	tipTag, finality := "latest", aggkittypes.LatestBlock
+	if c.SafeTag {
+		tipTag, finality = "safe", aggkittypes.SafeBlock
+	}
 	q := &c16Querier{idx: map[common.Hash]uint32{}, lag: map[common.Hash]int{}}
 	for _, e := range append(append([]c16Ev{}, c.Blocks...), c.ForkSuffix...) {
 		if e.Kind == 1 {
@@ -392,7 +400,7 @@ func c16Run(c c16Case) (verdict string, inconcl string) {
 			// the chain forks while the node is cross-checking the headers of the range it has just fetched
 			doFork()
 		}
-		if call.Method == "HeaderByNumber" && call.Tag == "latest" {
+		if call.Method == "HeaderByNumber" && call.Tag == tipTag {
 			if c.ForkAt != 0 && step == c.ForkStep && !forked {
 				doFork() // at the tip poll (also the fall-back of a mid-poll fork that found no header cross-check)
 			}
@@ -436,7 +444,7 @@ func c16Run(c c16Case) (verdict string, inconcl string) {
 		if err := rd.Start(ctx); err != nil {
 			return nil, err
 		}
-		s, err := lastgersync.New(ctx, dir, rd, chain, c16GERAddr, q, time.Millisecond, -1, aggkittypes.LatestBlock, time.Millisecond, 100, false, lastgersync.PP)
+		s, err := lastgersync.New(ctx, dir, rd, chain, c16GERAddr, q, time.Millisecond, -1, finality, time.Millisecond, 100, false, lastgersync.PP)
 		if err != nil {
 			return nil, err
 		}
